@@ -168,6 +168,20 @@ def observedOutcome : Except TypeError Dict → Outcome
   | .ok d => .ok d
   | .error _ => .error "TypeError"
 
+/-! ### the two bracketings of a triple -/
+
+/-- `merge(merge(a, b), c)`; an exception of the inner call is the exception of the whole -/
+def mergeLeft (ml ms : Bool) (a b c : Dict) : Except TypeError Dict :=
+  match mergeDict ml ms a b with
+  | .ok ab => mergeDict ml ms ab c
+  | .error e => .error e
+
+/-- `merge(a, merge(b, c))` -/
+def mergeRight (ml ms : Bool) (a b c : Dict) : Except TypeError Dict :=
+  match mergeDict ml ms b c with
+  | .ok bc => mergeDict ml ms a bc
+  | .error e => .error e
+
 /-! ### composite source -/
 
 def CompErr.name : CompErr → String
